@@ -209,14 +209,9 @@ impl Run {
                     running_since = None;
                 } else if l.starts_with("Retry error happened with") {
                     errors_in_run += 1;
-                    if let Some(le) = last_error {
-                        let gap = at.duration_since(le).as_secs_f64();
-                        // ExponentialBackoff: first interval 0.5 s, randomised by +-50%: never below 0.25 s
-                        if gap < 0.1 {
-                            self.violations.push(v("no-back-off-between-attempts", format!("tower {}: two failed attempts of one retry loop are {:.0} ms apart (the back-off's smallest interval is 250 ms)", &id[..8], gap * 1000.0)));
-                            return;
-                        }
-                    }
+                    // (no rule on the distance between two of these lines: their timestamps are taken when the harness reads
+                    // them, and a reader thread that was kept waiting sees lines half a second apart arrive together. A loop
+                    // without back-off shows in the count below and in the request rate measured at the tower.)
                     last_error = Some(*at);
                     let most = 2 + (self.opts.max_retry_time as f64 / 0.25) as u32;
                     if errors_in_run > most {
@@ -649,7 +644,7 @@ pub fn run(ctx: &Ctx) -> i32 {
     stats.merge(regress);
     let mut ev = Evidence::default();
     ev.level = "exploration".into();
-    ev.rule = "one case = a fresh real watchtower-client process with generated watchtower-max-retry-time (1-3 s) and watchtower-auto-retry-delay (2-4 s), 1-2 scripted towers, and 3-9 steps: revocations, a tower starting to fail in one of 7 ways (refused, reset, non-JSON 200, 502 page, wrong-shape JSON, undecodable signature, subscription error), one-off rejections, subscriptions running out (appointments refused with the subscription error until the client re-registers by itself), slow towers (every reply held back 0-1.1 s), recoveries, waits of 0.1-10 s (so that events land while the retrier is stopped, running, idle, waking), retrytower, SIGKILL + restart. Oracles: (1) after every tower recovered, within max-retry-time + auto-retry-delay + 3 manager polls + 3 s every tower is shown reachable with nothing pending and every answered revocation has a receipt (or is invalid because that tower rejected it); (2) per process log, 'Retrying tower X' never appears twice without 'Retry strategy succeeded|gave up for X' in between; (3) failed attempts of one retry loop are >= 100 ms apart and at most 2 + max-retry-time/0.25; no tower sees more than 12 failing requests in a second; a loop does not outlive max-retry-time by more than 1.5 intervals + slack; an idle retrier is not restarted before auto-retry-delay unless retrytower/restart asked; (4) a tower that keeps failing with data pending through a full cycle is shown unreachable at some sample and still lists the data; (5) retrytower is refused when the tower is shown reachable / temporary_unreachable / misbehaving before and after the call, accepted when unreachable before and after. Bounds on real time must fail again in a solo re-run (all other workers paused) to count. Non-trivial = a recovery, a full failing cycle or a manual retry happened; distinct = distinct class sets.".into();
+    ev.rule = "one case = a fresh real watchtower-client process with generated watchtower-max-retry-time (1-3 s) and watchtower-auto-retry-delay (2-4 s), 1-2 scripted towers, and 3-9 steps: revocations, a tower starting to fail in one of 7 ways (refused, reset, non-JSON 200, 502 page, wrong-shape JSON, undecodable signature, subscription error), one-off rejections, subscriptions running out (appointments refused with the subscription error until the client re-registers by itself), slow towers (every reply held back 0-1.1 s), recoveries, waits of 0.1-10 s (so that events land while the retrier is stopped, running, idle, waking), retrytower, SIGKILL + restart. Oracles: (1) after every tower recovered, within max-retry-time + auto-retry-delay + 3 manager polls + 3 s every tower is shown reachable with nothing pending and every answered revocation has a receipt (or is invalid because that tower rejected it); (2) per process log, 'Retrying tower X' never appears twice without 'Retry strategy succeeded|gave up for X' in between; (3) failed attempts of one retry loop number at most 2 + max-retry-time/0.25; no tower sees more than 12 failing requests in a second; a loop does not outlive max-retry-time by more than 1.5 intervals + slack; an idle retrier is not restarted before auto-retry-delay unless retrytower/restart asked; (4) a tower that keeps failing with data pending through a full cycle is shown unreachable at some sample and still lists the data; (5) retrytower is refused when the tower is shown reachable / temporary_unreachable / misbehaving before and after the call, accepted when unreachable before and after. Bounds on real time must fail again in a solo re-run (all other workers paused) to count. Non-trivial = a recovery, a full failing cycle or a manual retry happened; distinct = distinct class sets.".into();
     ev.assumptions = vec!["real time: bounds = configured delays + 3 polls of the retry manager + 3 s slack; a miss counts only if it reproduces with nothing else running".into(), "the client's info/warn log lines ('Retrying tower', 'Retry strategy succeeded/gave up', 'Retry error happened') are the observation point for retrier lifetimes".into(), "permanently failing subscriptions (non-extending renewals) and misbehaving towers are C14's subject and are not generated here".into()];
     ev.extra.insert("regression_cases_replayed".into(), json!(replayed));
     runner::conclude(ctx, "C13", stats, ev, started)
